@@ -24,3 +24,18 @@ add("C01", "model_checking",
     "the solver shows that whenever the node then treats a header as committed, the hash is non-nil, proposed, stored, and signed by more than 2/3 of the total power (128-bit arithmetic).",
     "Bounds: 3 validators, 3 targets, one precommit message from genesis (+ header deliveries). ByzantineMajority/Minority are replaced by their specification (proven by C18) to keep queries linear. Signatures inside builder proofs are assumed authentic (admission is C05). BLS scheme outside.",
     "symbolic execution of go/ssa + SMT (cvc5 bv-as-int / z3 portfolio)", "§5 C01")
+
+add("C04", "model_checking",
+    "From four start states reached through the real kernel handlers (genesis at initial height 1 or 5, one committed height, one committed height plus a nil-precommit round advance), one (quick) or two (thorough) kernel entries — addProposedHeader, addPrecommit, addPrevote, handleReplayedHeader — run with full-width symbolic request height and round, so the solver enumerates every position class of the request relative to the node; after each step the chain obligations are asserted on the real kState and the shipped memstores: voting = committing+1, never backwards, one height at a time, mirror store = position, committed hashes immutable and gap-free, new commit hash-linked to the previous one.",
+    "Bounds: 3 validators with power 1, hashes A/B/G, 1-2 steps from the listed start states. Proposed headers handed to the kernel carry the link the mirror layer enforces; replayed headers carry an arbitrary predecessor. Panics in a step are C09-K3's obligation, not C04's. Restart (crash points) is C10.",
+    "symbolic execution of go/ssa + SMT; request positions symbolic, content enumerated", "§5 C04")
+
+add("C13", "model_checking",
+    "The real SimpleCommonMessageSignatureProof(Scheme) and tsi.CommitProofFinalizer run on every prior signer subset and every offered operand within the bounds, with signature verification an uninterpreted predicate (forged, foreign and honest signatures are all points of the same function): AddSignature/MergeSparse/Merge are checked against the set-union oracle and flag definitions, Clone/Derive independence, AsSparse rebuild, HasSparseKeyID/KeyIDChecker, Finalize -> ValidateFinalizedProof round trip and hostile finalized input.",
+    "Bounds: 2 keys (quick) / 3 (thorough), 1-2 sparse entries, main + 0-2 rest proofs; key ids of 0-3 arbitrary bytes. BLS scheme (cgo blst) is outside the claim. WasStrictSuperset is asserted only where Merge and MergeSparse agree with the doc comment.",
+    "symbolic execution of go/ssa + SMT with uninterpreted verification", "§5 C13")
+
+add("C17", "model_checking",
+    "The real ChattyStrategy functions broadcastViewDiff/broadcastUpdatesOnly/broadcastAll/broadcastPrecommits and the real kernel goroutine (two consecutive updates) run against a recording broadcaster on pairs of consecutive views built from real signature proofs (same or different height/round as full-width symbols, growing signer words per target, growing header sets, nil-voted round); per update everything new in the view must be contained in what was sent and everything sent must be in the view.",
+    "Bounds: 2 validators (quick) / 3 (thorough), targets nil/A/B, 2 consecutive updates. Assumes the previous view was completely broadcast (per-step obligation) and views of one round only grow. Update sequences longer than 2 and cancelled contexts are outside.",
+    "symbolic execution of go/ssa + SMT; view structure enumerated, positions symbolic", "§5 C17")
